@@ -39,7 +39,7 @@ ASSUMPTIONS = [
   "what copy_to copies onto the destination (merge or replace of styles / animation steps) is not judged, only that nothing "
   "else in the universe changes and stored values stay valid",
   "value validity: reference table in vt/ref/model.py (type of the value, each font-family item, root-container units for "
-  "Extent/Origin/Position); component ranges of colours, numeric ranges and the members of text-shadow lists are not judged",
+  "Extent/Origin/Position); component ranges of colours and numeric ranges are not judged, nor whether a Python bool counts as a number; the members of text-shadow lists, the components of padding and the edges of a position are judged (validity matrix)",
   "hidden (non-public) state is out of scope: pruning of the exhaustive search and the unchanged check use the public fingerprint",
   "a call that burns more than 0.5 s of CPU is interrupted by a watchdog and reported as call-does-not-return (no state is "
   "reached, so the well-formedness clauses have nothing to judge); such a history is not extended",
@@ -54,7 +54,7 @@ NEVER_REJECTS = {"remove_children", "remove_region"}   # no argument of our pool
 REQUIRED = (["op:%s:accepted" % o for o in OPS] + ["op:%s:rejected" % o for o in OPS if o not in NEVER_REJECTS] + [
   "mon:walker", "mon:rejected-unchanged", "mon:post-state", "ex:histories", "rw:walks",
   "flavor:push_child[ancestor]", "flavor:push_child[plain]", "flavor:push_child[kind]", "flavor:push_child[has-parent]",
-  "flavor:push_child[doc-mismatch]", "flavor:push_children[Ruby:plain]", "flavor:push_children[Rtc:plain]",
+  "flavor:push_child[doc-mismatch]", "matrix:set_style", "matrix:put_initial_value", "matrix:add_animation_step", "matrix:accepted", "flavor:push_children[Ruby:plain]", "flavor:push_children[Rtc:plain]",
   "flavor:push_children[Rtc:sequence]", "flavor:push_children[Ruby:irregular]",
   "flavor:set_region[registered]", "flavor:set_region[same-id-foreign-doc]", "flavor:set_region[no-doc]",
   "flavor:put_region[replace-referenced-in-body]", "flavor:put_region[replace-referenced-off-body]", "flavor:put_region[new]", "flavor:remove_region[referenced-in-body]", "flavor:remove_region[referenced-off-body]",
@@ -747,6 +747,7 @@ def plan(tier, seed):
   else:
     shards = [{"kind": "ex", "universe": "reduced", "depth": 2, "part": i, "parts": N_SHARDS} for i in range(N_SHARDS)]
   shards.append({"kind": "scripts"})
+  shards += [{"kind": "matrix", "part": i, "parts": 4} for i in range(4)]
   per = walks // N_SHARDS
   for i in range(N_SHARDS):
     shards.append({"kind": "rw", "universe": "full", "lo": i * per, "hi": (i + 1) * per})
@@ -787,8 +788,118 @@ def run_scripts(ctx, p):
     ctx.count("script:histories")
 
 
+# ------------------------------------------------------------------------------------------------------------------
+# validity matrix: every style property x a systematic pool of values x the three ways of storing a value
+# ------------------------------------------------------------------------------------------------------------------
+
+def matrix_values():
+  """name -> value. Every member of every enumeration of ttconv.style_properties, every length unit alone and inside every
+  structured type (both axes), numbers, strings, containers and other structured values."""
+  import enum
+  import inspect
+  import ttconv.style_properties as sp  # pylint: disable=import-outside-toplevel
+  L, U = sp.LengthType, sp.LengthType.Units
+  out = {"int0": 0, "int1": 1, "neg1": -1, "half": 0.5, "true": True, "false": False, "str_empty": "", "str_red": "red", "tuple_empty": (),
+         "list_empty": [], "frac": Fraction(1, 2), "bytes": b"x", "object": object(), "color": sp.ColorType((1, 2, 3, 255)),
+         "ff_ok": ("Arial", sp.GenericFontFamilyType.serif), "ff_one": ("Arial",), "ff_int": ("Arial", 3)}
+
+  def enums(ns, prefix):
+    for nm, obj in inspect.getmembers(ns, inspect.isclass):
+      if getattr(obj, "__module__", None) != sp.__name__:
+        continue
+      if issubclass(obj, enum.Enum):
+        for m in obj:
+          out[f"{prefix}{nm}.{m.name}"] = m
+      elif ns is sp or obj is not ns:
+        if prefix.count(".") < 2 and nm != "StyleProperties":
+          enums(obj, f"{prefix}{nm}.")
+  enums(sp, "")
+  units = list(U)
+  for u in units:
+    out[f"len:{u.value}"] = L(1, u)
+    out[f"padding:{u.value}"] = sp.PaddingType(L(1, u), L(1, u), L(1, u), L(1, u))
+    out[f"padding:c+{u.value}"] = sp.PaddingType(L(1, U.c), L(1, U.c), L(1, U.c), L(1, u))
+    out[f"outline:{u.value}"] = sp.TextOutlineType(L(1, u), None)
+    out[f"reserve:{u.value}"] = sp.RubyReserveType(sp.RubyReserveType.Position.both, L(1, u))
+    for v in units:
+      out[f"extent:{u.value},{v.value}"] = sp.ExtentType(height=L(1, v), width=L(1, u))
+      out[f"origin:{u.value},{v.value}"] = sp.CoordinateType(x=L(1, u), y=L(1, v))
+      out[f"position:{u.value},{v.value}"] = sp.PositionType(h_offset=L(1, u), v_offset=L(1, v))
+  def try_add(name, make):
+    try:
+      out[name] = make()
+    except Exception:  # pylint: disable=broad-except
+      pass            # the constructor itself refuses the value: nothing to store
+
+  try_add("len:str-value", lambda: L("1", U.c))
+  try_add("len:no-unit", lambda: L(1, "c"))
+  try_add("extent:raw", lambda: sp.ExtentType(height=1, width=2))
+  try_add("origin:raw", lambda: sp.CoordinateType(x=1, y=2))
+  try_add("position:raw", lambda: sp.PositionType(h_offset=1, v_offset=2))
+  try_add("position:edges-str", lambda: sp.PositionType(h_offset=L(1, U.pct), v_offset=L(1, U.pct), h_edge="left", v_edge="top"))
+  try_add("padding:raw", lambda: sp.PaddingType(1, 2, 3, 4))
+  try_add("decoration", lambda: sp.TextDecorationType(underline=True))
+  try_add("emphasis", lambda: sp.TextEmphasisType())
+  try_add("reserve:none-length", lambda: sp.RubyReserveType(sp.RubyReserveType.Position.outside, None))
+  try_add("reserve:str-position", lambda: sp.RubyReserveType("both", None))
+  try_add("shadow:ok", lambda: sp.TextShadowType((sp.TextShadowType.Shadow(L(1, U.px), L(1, U.px), None, None),)))
+  try_add("shadow:items-not-shadows", lambda: sp.TextShadowType((1, "x")))
+  try_add("shadow:not-a-sequence", lambda: sp.TextShadowType(5))
+  return out
+
+
+def run_matrix(ctx, p):
+  """Judged in one direction only (the statement's): a value the reference calls invalid for the property must not be stored."""
+  import ttconv.model as m  # pylint: disable=import-outside-toplevel
+  import ttconv.style_properties as sp  # pylint: disable=import-outside-toplevel
+  vals = matrix_values()
+  names = sorted(vals)
+  ctx.count("matrix:values", len(names))
+  for pi, pname in enumerate(M.PROPERTY_NAMES):
+    if pi % p["parts"] != p["part"]:
+      continue
+    prop = getattr(sp.StyleProperties, pname)
+    for vn in names:
+      v = vals[vn]
+      ok = M.value_ok(pname, v)
+      if isinstance(v, bool) and pname in ("LuminanceGain", "Opacity", "Shear"):
+        continue        # a Python bool is a number (True == 1): whether it is a valid number-valued style is not judged
+      for route in ("set_style", "put_initial_value", "add_animation_step"):
+        ctx.ev()
+        ctx.count("matrix:" + route)
+        doc = m.ContentDocument()
+        el = m.Region("r1", doc) if route != "add_animation_step" or pi % 2 else m.P(doc)
+        stored, err = False, None
+        try:
+          if route == "set_style":
+            el.set_style(prop, v)
+            stored = el.get_style(prop) is v or (el.get_style(prop) is not None and el.get_style(prop) == v)
+          elif route == "put_initial_value":
+            doc.put_initial_value(prop, v)
+            stored = doc.get_initial_value(prop) is not None
+          else:
+            step_ = m.DiscreteAnimationStep(prop, None, None, v)
+            el.add_animation_step(step_)
+            stored = any(x.value is v or x.value == v for x in el.iter_animation_steps())
+        except Exception as e:  # pylint: disable=broad-except
+          err = e
+        ctx.count("matrix:accepted" if stored else "matrix:rejected")
+        if ok:
+          ctx.nontriv(("matrix", pname, vn, route))
+          if not stored:
+            ctx.count("matrix:valid-refused")
+        elif stored:
+          cls = vn.split(":")[0].split(".")[0]
+          ctx.violation(f"style-validity:{route}[{pname}:{cls}]",
+                        f"{route}: {pname} accepted and stored the value {vn} = {v!r}, which is not a valid {pname}",
+                        {"kind": "matrix", "prop": pname, "value": vn, "route": route})
+
+
 def run(ctx, p):
   install_watchdog()
+  if p["kind"] == "matrix":
+    run_matrix(ctx, p)
+    return
   if p["kind"] == "ex":
     run_ex(ctx, p)
   elif p["kind"] == "scripts":
@@ -800,6 +911,9 @@ def run(ctx, p):
 def replay(ctx, payload):
   """Re-executes one recorded history on a fresh universe with every monitor on."""
   install_watchdog()
+  if payload.get("kind") == "matrix":
+    run_matrix(ctx, {"part": 0, "parts": 1})
+    return
   u = build(payload["universe"])
   init = u.check()
   if init:
